@@ -90,6 +90,19 @@ Gfp(P, en, box) ==
 RECURSIVE WidthSum(_, _)
 WidthSum(doms, k) == IF k > Len(doms) THEN 0 ELSE (doms[k][2] - doms[k][1] + 1) + WidthSum(doms, k + 1)
 PassBound(P) == 8 * NProp(P) * (2 + WidthSum(P.doms, 1))
+\* C04 for one shaving call: the loop's position (domain, bound) only moves forward unless a value was shaved, so there
+\* are at most (values + 2 * domains) probes; every probe is at most 5 events (main pass, choice, branch, pass, resume).
+\* Twice that, as slack: a bound on the events between the start of a shaving call and its end.
+ShaveBound(P) == 10 * (WidthSum(P.doms, 1) + 2 * NDom(P) + 2)
+\* C04 for a whole call: a search tree whose branches are non-empty disjoint sub-boxes has at most 2N nodes (N = points
+\* of the root box); a node is a pass (plus one shaving call), a choice, a branch / a solution, a resume; an optimisation
+\* restarts at most once per value of the objective.  Saturates with BoxSize: no verdict on large problems.
+RunBound(T) ==
+  LET P  == T.P
+      N  == BoxSize(P.doms)
+      sb == IF T.cfgx.ca = 1 THEN ShaveBound(P) + 2 ELSE 0
+      R  == IF T.mode = "solve" THEN 1 ELSE P.doms[DomOf(P, T.var)][2] - P.doms[DomOf(P, T.var)][1] + 3
+  IN IF N >= 100000 \/ T.cfgx.ca \notin {0, 1} THEN 1000000000 ELSE R * (2 * N * (2 + sb) + 6 * N + 16)
 ---------------------------------------------------------------------------
 Bit(m, b) == (m \div b) % 2 = 1
 Moved(old, new) == (IF new[1] # old[1] THEN 1 ELSE 0) + (IF new[2] # old[2] THEN 2 ELSE 0)
@@ -116,6 +129,7 @@ InitState(T) ==
    cnt     |-> [i \in 1..13 |-> 0],
    lvls    |-> 0,
    shAlg   |-> 0,
+   shEv    |-> 0,          \* events consumed since the running shaving call started
    shOn    |-> FALSE, shBase |-> [box |-> <<>>, en |-> <<>>, base |-> <<>>], shN |-> 0,
    probe   |-> <<>>, pst |-> -1,
    hasInc  |-> FALSE, inc |-> <<>>,
@@ -362,7 +376,7 @@ Raised(T, s, e) ==
               \* a call that ends in an unexpected exception neither enumerates (C02) nor returns an optimum (C03)
               IF T.mode = "solve" THEN "C02:raised-" \o e.type ELSE "C03:raised-" \o e.type} >>
 
-Step(T, s, e) ==
+Step0(T, s, e) ==
   IF s.over /\ ~(e.k = "X" /\ IsCapacityError(e)) THEN << [s EXCEPT !.over = FALSE], {"C19:continues-above-the-configured-height"} >> ELSE
   CASE e.k = "P" /\ e.alg = 0 -> PassBC(T, s, e)
     [] e.k = "P" /\ e.alg >= 1 -> PassShaving(T, s, e)
@@ -379,4 +393,11 @@ Step(T, s, e) ==
     [] e.k = "X" -> Raised(T, s, e)
     [] e.k = "H" -> << s, {"C04:hung"} >>
     [] OTHER -> << s, {"XX:unknown-event"} >>
+
+\* every event inside a shaving call counts against the bound of that call (reported once, when the bound is crossed)
+Step(T, s, e) ==
+  LET r == Step0(T, s, e)
+      n == IF s.shOn /\ r[1].shOn THEN s.shEv + 1 ELSE 0
+  IN << [r[1] EXCEPT !.shEv = n],
+        r[2] \cup (IF s.shAlg = 1 /\ n = ShaveBound(T.P) + 1 THEN {"C04:shaving-call-exceeds-its-bound"} ELSE {}) >>
 =============================================================================
